@@ -5,6 +5,10 @@ V = os.path.dirname(os.path.dirname(os.path.abspath(__file__)))
 ALL = ["C%02d" % i for i in range(1, 20)]
 TECH = "symbolic execution of the real /repo source on z3 bit-vector proxies (symx), per-path SMT queries, concrete replay"
 CLAIMED = {
+ "C06": dict(text="Bounded symbolic verification: canonical responses from independent builders (fields symbolic); the real "
+                  "marshall/unmarshall pairs run both ways; z3 decides byte equality of marshall(unmarshall(b)) with b, "
+                  "dictionary equality of unmarshall(marshall(d)) with d, and single-field read-modify-write of mode pages.",
+             ref="3/C06", note="spec/responses.py canonical forms; mode lists without block descriptors; <= 2 (4) descriptors"),
  "C05": dict(text="Bounded symbolic verification: MODE SELECT 6/10, PERSISTENT RESERVE OUT and EXTENDED COPY LID1/LID4 "
                   "constructors run on structurally enumerated parameter dictionaries with symbolic numeric leaves; dataout is "
                   "compared byte for byte with an independent builder and all embedded lengths with the bytes that follow.",
